@@ -5,12 +5,13 @@ CONSTANTS
   Rels <- TRelsP1
   Systems <- Singles
   Boxes = {}
-  Ks <- QKs
+  Ks <- PKs
   Scales <- QScales
 INVARIANT TypeOK
 INVARIANT LastHolds
 INVARIANT Orientation
 INVARIANT PenaltyZeroSet
+INVARIANT KZero
 INVARIANT CrossZero
 INVARIANT ScaleLemma
 INVARIANT EmitC14
